@@ -262,15 +262,20 @@ class BuiltinsMixin:
         v = args[0]
         if len(args) == 1 and not v.is_py and v.ty.kind == "seq" and v.ty.args[0].kind in ("str", "int"):
             et = v.ty.args[0]
-            nonempty, empty = self.branch(s, z3.Length(v.t) > 0, "minmax")
+            if self.spec_mode:       # specifications are total: min/max of an empty sequence is some value
+                nonempty, empty = s, None
+            else:
+                nonempty, empty = self.branch(s, z3.Length(v.t) > 0, "minmax")
             if empty is not None:
                 self.raise_(empty, ValueError)
             if nonempty is None:
                 return []
-            r = self.fresh(et, "min" if is_min else "max")
+            # a function of the sequence (the same sequence has the same minimum), pinned down by the two axioms below
+            f = self.uf(("seq_min_" if is_min else "seq_max_") + et.kind, [v.t.sort()], self.reg.sort(et))
+            r = Val(et, f(v.t))
             j = z3.Int(fresh_name("mj"))
             rng = z3.And(0 <= j, j < z3.Length(v.t))
-            nonempty.assume(z3.Contains(v.t, z3.Unit(r.t)))
+            nonempty.assume(z3.Implies(z3.Length(v.t) > 0, z3.Contains(v.t, z3.Unit(r.t))))
             nonempty.assume(z3.ForAll([j], z3.Implies(rng, (r.t <= v.t[j]) if is_min else (v.t[j] <= r.t))))
             return [(nonempty, r)]
         raise Unsupported("min/max form")
@@ -1329,6 +1334,8 @@ def _sf_in_lang(self, n, st):
         self._rx_cache[key] = lang
     if subj.is_py:
         subj = self.lift(subj.t)
+    if subj.ty.kind == "opt":      # specifications are total: the language test of None is the test of its payload
+        subj = self.unwrap(subj)
     return [(st, Val(BOOL, z3.InRe(subj.t, lang)))]
 
 
